@@ -20,6 +20,7 @@ import (
 	"context"
 	"fmt"
 	"reflect"
+	"strconv"
 	"strings"
 	"sync"
 	"sync/atomic"
@@ -62,11 +63,27 @@ type SessionWindow struct {
 	ticker   *time.Ticker
 	// watermark for event time processing (only used for EventTime)
 	watermark *Watermark
+	// parkSeq numbers the sessions parked by Add when a later event of the same
+	// key starts a new session (see parkedSessionSep).
+	parkSeq uint64
 	// triggeredSessions stores sessions that have been triggered but are still open for late data (for EventTime with allowedLateness)
 	triggeredSessions map[string]*sessionInfo
 	// Performance statistics
 	sentCount    int64 // Number of successfully sent results
 	droppedCount int64 // Number of dropped results
+}
+
+// parkedSessionSep separates the composite key from the sequence number in the
+// map key of a parked (finished but not yet expired) session of that key.
+const parkedSessionSep = "\x00#"
+
+// sessionMapKeyOwner returns the composite session key a sessionMap /
+// triggeredSessions entry belongs to (the map key without a parked suffix).
+func sessionMapKeyOwner(mapKey string) string {
+	if i := strings.LastIndex(mapKey, parkedSessionSep); i >= 0 {
+		return mapKey[:i]
+	}
+	return mapKey
 }
 
 // sessionInfo stores information about a triggered session that is still open for late data
@@ -211,6 +228,18 @@ func (sw *SessionWindow) Add(data any) {
 
 	// Get or create session
 	s, exists := sw.sessionMap[key]
+	if exists && s.slot.End != nil && !timestamp.Before(*s.slot.End) {
+		// The event lies at or beyond the end of the key's open session: the gap
+		// reached the timeout, so it starts a new session. Park the finished
+		// session under a private map key (it is emitted once the watermark
+		// passes its end) instead of extending it — extending here made the
+		// outcome depend on whether the expiry goroutine happened to run between
+		// the two Adds, and a continuously active key never fired at all.
+		sw.parkSeq++
+		sw.sessionMap[key+parkedSessionSep+strconv.FormatUint(sw.parkSeq, 10)] = s
+		delete(sw.sessionMap, key)
+		exists = false
+	}
 	if !exists {
 		// Create new session
 		// Use the actual timestamp of the first data point as session start
@@ -226,6 +255,12 @@ func (sw *SessionWindow) Add(data any) {
 		}
 		sw.sessionMap[key] = s
 	} else {
+		// An on-time, out-of-order event may precede the session's first event:
+		// window_start is the earliest event of the session.
+		if s.slot.Start != nil && timestamp.Before(*s.slot.Start) {
+			newStart := timestamp
+			s.slot.Start = &newStart
+		}
 		// Update session end time
 		if timestamp.After(s.lastActive) {
 			s.lastActive = timestamp
@@ -590,8 +625,10 @@ func (sw *SessionWindow) SetCallback(callback func([]types.Row)) {
 // held (the "Locked" convention — re-entering the non-reentrant mutex would
 // deadlock). Returns true if the event was absorbed into a triggered session.
 func (sw *SessionWindow) handleLateData(row types.Row) bool {
-	for _, info := range sw.triggeredSessions {
-		if info.session.slot.Contains(row.Timestamp) {
+	key := extractSessionCompositeKey(row.Data, sw.config.GroupByKeys)
+	for mapKey, info := range sw.triggeredSessions {
+		// only a session of the row's own key may absorb it
+		if sessionMapKeyOwner(mapKey) == key && info.session.slot.Contains(row.Timestamp) {
 			// Append the late event before re-emitting so the update includes it.
 			info.session.data = append(info.session.data, row)
 			sw.triggerLateUpdateLocked(info.session)
